@@ -422,6 +422,17 @@ def check_case(case) -> Verdict:
             scale = DEFAULT_TOL[0] / rtol  # every allowance is (at least) linear in the tolerances
             if all(ratios[k] <= scale for k in bad):
                 sub = "tol-honoured"
+        if sub == "exact" and solver == "general" and branch != "detonation":
+            # classification only: does the returned point satisfy the solver's OWN shock condition?
+            # (brentq converging onto a discontinuity of the shooting function leaves it non-zero)
+            try:
+                own = float(hyd.solveHydroShock(vw, vp, Tp)) - Tn
+                v.info["own_shock_residual_rel"] = own / Tn
+                if abs(own) > 20.0 * (atol + rtol * Tn):
+                    cls += "/spurious-root"
+                    v.label("spurious-root")
+            except (WallGoError, ValueError):
+                pass
         v.fail(sub, cls if sub == "exact" else f"{solver}/{branch}/root",
                f"an exact matching exists for vw={vw:.8g} but the returned one is not it: "
                + ", ".join(f"{k}={got[k]:.10g} (exact {want[k]:.10g}, allowed +-{allow[k]:.2e})" for k in bad)
